@@ -332,6 +332,10 @@ Definition three_ok (repaired : bool) (tbl : list (str * str)) (df1000 plimit : 
      | SpOk (b, i) =>
          if code =? 0 then str_eqb b bytes && list_eqb pair_eqb (sort_by pair_leb i) idmap
          else (code =? 3) || (code =? 4)       (* only a configured limit may stand in the way *)
-     | SpUnsupported => (code =? 1) || (code =? 2)
+     | SpUnsupported =>
+         (code =? 1) || (code =? 2)
+         (* generalized RDF (a literal as predicate) is outside RDFC-1.0 and outside the property:
+            only the model of the implementation is compared there *)
+         || existsb (fun q => match q_pred q with Iri _ | Bnode _ => false | _ => true end) d
      | SpFuel => false
      end.
